@@ -808,3 +808,59 @@ wstubs! {
 #[kani::unwind(12)]
 fn c10_flush_closes_empty_inner() { flush_closes_empty_master(false) }
 }
+
+// ------------------------------------------------------------------ C11c: the writer validates unknown-size starts too
+/// A master written with unknown size (option-based or deprecated call) under a chain its declared path
+/// does not allow must be rejected like any other misplaced tag, leaving no trace.
+fn unknown_start_misplaced(deprecated: bool) {
+    let pre: [u8; 2] = kani::any();
+    let mut w = TagWriter::new(Sink::new(SINK));
+    // A is declared as Root/A; Root2 is open instead
+    w.verif_seed(vec![(tree::ROOT2, EBMLSize::Known(0), 0)], pre.to_vec());
+    let before = snap(&w);
+    let tag = TreeTag::start(tree::A);
+    #[allow(deprecated)]
+    let r = if deprecated { w.write_unknown_size(&tag) } else { w.write_advanced(&tag, WriteOptions::is_unknown_sized_element()) };
+    assert!(matches!(r, Err(TagWriterError::UnexpectedTag { tag_id, .. }) if tag_id == tree::A), "C11/C09c: an unknown-size master start is validated against the open chain like any other tag");
+    let after = snap(&w);
+    assert!(same(&before, &after), "C19/C11: the rejected unknown-size start leaves no trace");
+    kani::cover!(pre[0] != 0, "non-zero buffered byte reached");
+    core::mem::forget(r);
+    core::mem::forget(w);
+}
+wstubs! {
+#[kani::unwind(12)]
+fn c11_writer_unknown_start_misplaced() { unknown_start_misplaced(false) }
+}
+wstubs! {
+#[kani::unwind(12)]
+fn c11_writer_unknown_start_misplaced_deprecated() { unknown_start_misplaced(true) }
+}
+wstubs! {
+#[kani::unwind(12)]
+fn c11_writer_known_start_misplaced() {
+    // the same for an ordinary (known-size) start and for a leaf: rejected, no trace; a well-placed one is accepted
+    let pre: [u8; 2] = kani::any();
+    let which: u8 = kani::any();
+    kani::assume(which < 3);
+    let mut w = TagWriter::new(Sink::new(SINK));
+    w.verif_seed(vec![(tree::ROOT2, EBMLSize::Known(0), 0)], pre.to_vec());
+    let before = snap(&w);
+    let tag = match which {
+        0 => TreeTag::start(tree::A),                    // Root/A under Root2: misplaced
+        1 => TreeTag::new(tree::L1, Val::U(7)),          // Root/L1 under Root2: misplaced
+        _ => TreeTag::new(tree::CRC, Val::B(&[])),       // (1-)/Crc under one master: allowed
+    };
+    let r = w.write(&tag);
+    if which < 2 {
+        assert!(matches!(r, Err(TagWriterError::UnexpectedTag { .. })), "C11c: the writer rejects a tag whose declared path does not match the open chain");
+        let after = snap(&w);
+        assert!(same(&before, &after), "C19/C11: a rejected misplaced tag leaves no trace");
+    } else {
+        assert!(r.is_ok(), "C11c: a global element within its depth range is accepted");
+    }
+    kani::cover!(which == 2, "accepted global reached");
+    core::mem::forget(r);
+    core::mem::forget(w);
+}
+}
